@@ -53,17 +53,17 @@ Notation gprod := (PlanarDistAll.prod rows cols).
 Notation stab := (stab rows cols).
 
 (* the grid of create_tn: (2 rows - 1) x (2 cols - 1) nodes *)
-Definition R : nat := Z.to_nat (2 * rows - 1).
-Definition C : nat := Z.to_nat (2 * cols - 1).
-Lemma HR : (1 <= R)%nat. Proof. unfold R. lia. Qed.
-Lemma HC : (2 <= C)%nat. Proof. unfold C. lia. Qed.
+Definition tn_rows : nat := Z.to_nat (2 * rows - 1).
+Definition tn_cols : nat := Z.to_nat (2 * cols - 1).
+Lemma tn_rows_pos : (1 <= tn_rows)%nat. Proof. unfold tn_rows. lia. Qed.
+Lemma tn_cols_ge2 : (2 <= tn_cols)%nat. Proof. unfold tn_cols. lia. Qed.
 
 (* ---- sites ---- *)
-Lemma QL_site k c : In (k, c) (QL R C) -> isite (P k c) /\ (k < R)%nat /\ (c < C)%nat /\ Nat.even (k + c) = true.
+Lemma QL_site k c : In (k, c) (QL tn_rows tn_cols) -> isite (npos k c) /\ (k < tn_rows)%nat /\ (c < tn_cols)%nat /\ Nat.even (k + c) = true.
 Proof.
-  intros H. apply (in_QL R C HR HC) in H. destruct H as (Hc' & Hk & He). repeat split; auto.
-  - rewrite site_unfold. unfold P. cbn [fst snd]. apply even_Z in He. unfold R, C in *. lia.
-  - rewrite inb_unfold. unfold P. cbn [fst snd]. unfold R, C in *. lia.
+  intros H. apply (in_QL tn_rows tn_cols tn_rows_pos tn_cols_ge2) in H. destruct H as (Hc' & Hk & He). repeat split; auto.
+  - rewrite site_unfold. unfold npos. cbn [fst snd]. apply even_Z in He. unfold tn_rows, tn_cols in *. lia.
+  - rewrite inb_unfold. unfold npos. cbn [fst snd]. unfold tn_rows, tn_cols in *. lia.
 Qed.
 Lemma xat_nth e s : isite s -> xat e s = nth (fl s) e false.
 Proof.
@@ -76,10 +76,10 @@ Proof. intros [Hs Hi]. unfold PlanarDistAll.zat. rewrite Hi. cbn [andb]. apply n
    sample_pauli.operator((k, c)), i.e. from its X and Z components at that site *)
 Variable f : bsf.
 Hypothesis Hf : length f = (N + N)%nat.
-Definition fxb (k c : nat) : bool := xat f (P k c).
-Definition fzb (k c : nat) : bool := zat f (P k c).
+Definition fxb (k c : nat) : bool := xat f (npos k c).
+Definition fzb (k c : nat) : bool := zat f (npos k c).
 (* TNC.create_tn(prob_dist, sample_pauli) *)
-Definition planar_network : list (list (option (tensor K))) := planar_tn K d R C fxb fzb.
+Definition planar_network : list (list (option (tensor K))) := planar_tn K d tn_rows tn_cols fxb fzb.
 
 
 (* ---- the components of a product of stabilizer generators at a site: the two adjacent generators of each type ---- *)
@@ -119,36 +119,36 @@ Proof.
 Qed.
 
 (* the bits read by the network across its (dummy) border are 0, as the lattice has no generator there *)
-Ltac memb_tac := symmetry; unfold PlanarDistAll.memb; rewrite plaq_unfold, inb_unfold; cbn [fst snd]; unfold R, C in *; lia.
-Lemma gm_east k c : (k < R)%nat -> Nat.even (k + c) = true ->
-  gm (Z.of_nat k, Z.of_nat c + 1) = (S c <? C)%nat && g (P k (S c)).
+Ltac memb_tac := symmetry; unfold PlanarDistAll.memb; rewrite plaq_unfold, inb_unfold; cbn [fst snd]; unfold tn_rows, tn_cols in *; lia.
+Lemma gm_east k c : (k < tn_rows)%nat -> Nat.even (k + c) = true ->
+  gm (Z.of_nat k, Z.of_nat c + 1) = (S c <? tn_cols)%nat && g (npos k (S c)).
 Proof.
-  intros Hk He. apply even_Z in He. unfold gm, P. replace (Z.of_nat (S c)) with (Z.of_nat c + 1) by lia.
-  destruct (S c <? C)%nat eqn:E; [apply Nat.ltb_lt in E|apply Nat.ltb_ge in E].
+  intros Hk He. apply even_Z in He. unfold gm, npos. replace (Z.of_nat (S c)) with (Z.of_nat c + 1) by lia.
+  destruct (S c <? tn_cols)%nat eqn:E; [apply Nat.ltb_lt in E|apply Nat.ltb_ge in E].
   - replace (memb (Z.of_nat k, Z.of_nat c + 1)) with true by memb_tac. reflexivity.
   - replace (memb (Z.of_nat k, Z.of_nat c + 1)) with false by memb_tac. reflexivity.
 Qed.
-Lemma gm_west k c : (k < R)%nat -> (c < C)%nat -> Nat.even (k + c) = true ->
-  gm (Z.of_nat k, Z.of_nat c - 1) = (0 <? c)%nat && g (P k (c - 1)).
+Lemma gm_west k c : (k < tn_rows)%nat -> (c < tn_cols)%nat -> Nat.even (k + c) = true ->
+  gm (Z.of_nat k, Z.of_nat c - 1) = (0 <? c)%nat && g (npos k (c - 1)).
 Proof.
-  intros Hk Hc' He. apply even_Z in He. unfold gm, P.
+  intros Hk Hc' He. apply even_Z in He. unfold gm, npos.
   destruct (0 <? c)%nat eqn:E; [apply Nat.ltb_lt in E|apply Nat.ltb_ge in E].
   - replace (Z.of_nat (c - 1)) with (Z.of_nat c - 1) by lia.
     replace (memb (Z.of_nat k, Z.of_nat c - 1)) with true by memb_tac. reflexivity.
   - replace (memb (Z.of_nat k, Z.of_nat c - 1)) with false by memb_tac. reflexivity.
 Qed.
-Lemma gm_south k c : (c < C)%nat -> Nat.even (k + c) = true ->
-  gm (Z.of_nat k + 1, Z.of_nat c) = (S k <? R)%nat && g (P (S k) c).
+Lemma gm_south k c : (c < tn_cols)%nat -> Nat.even (k + c) = true ->
+  gm (Z.of_nat k + 1, Z.of_nat c) = (S k <? tn_rows)%nat && g (npos (S k) c).
 Proof.
-  intros Hc' He. apply even_Z in He. unfold gm, P. replace (Z.of_nat (S k)) with (Z.of_nat k + 1) by lia.
-  destruct (S k <? R)%nat eqn:E; [apply Nat.ltb_lt in E|apply Nat.ltb_ge in E].
+  intros Hc' He. apply even_Z in He. unfold gm, npos. replace (Z.of_nat (S k)) with (Z.of_nat k + 1) by lia.
+  destruct (S k <? tn_rows)%nat eqn:E; [apply Nat.ltb_lt in E|apply Nat.ltb_ge in E].
   - replace (memb (Z.of_nat k + 1, Z.of_nat c)) with true by memb_tac. reflexivity.
   - replace (memb (Z.of_nat k + 1, Z.of_nat c)) with false by memb_tac. reflexivity.
 Qed.
-Lemma gm_north k c : (k < R)%nat -> (c < C)%nat -> Nat.even (k + c) = true ->
-  gm (Z.of_nat k - 1, Z.of_nat c) = (0 <? k)%nat && g (P (k - 1) c).
+Lemma gm_north k c : (k < tn_rows)%nat -> (c < tn_cols)%nat -> Nat.even (k + c) = true ->
+  gm (Z.of_nat k - 1, Z.of_nat c) = (0 <? k)%nat && g (npos (k - 1) c).
 Proof.
-  intros Hk Hc' He. apply even_Z in He. unfold gm, P.
+  intros Hk Hc' He. apply even_Z in He. unfold gm, npos.
   destruct (0 <? k)%nat eqn:E; [apply Nat.ltb_lt in E|apply Nat.ltb_ge in E].
   - replace (Z.of_nat (k - 1)) with (Z.of_nat k - 1) by lia.
     replace (memb (Z.of_nat k - 1, Z.of_nat c)) with true by memb_tac. reflexivity.
@@ -156,14 +156,14 @@ Proof.
 Qed.
 
 (* the entry of the qubit node at the bits of g is the probability of the letter of f * prod(g) at that qubit *)
-Lemma site_factor k c : In (k, c) (QL R C) ->
-  siteval K d R C fxb fzb g (k, c)
-  = pick K d (nth (fl (P k c)) (xorv f (gprod g)) false) (nth (N + fl (P k c)) (xorv f (gprod g)) false).
+Lemma site_factor k c : In (k, c) (QL tn_rows tn_cols) ->
+  siteval K d tn_rows tn_cols fxb fzb g (k, c)
+  = pick K d (nth (fl (npos k c)) (xorv f (gprod g)) false) (nth (N + fl (npos k c)) (xorv f (gprod g)) false).
 Proof.
   intros Hin. destruct (QL_site k c Hin) as (Hs & Hk & Hc' & He).
   assert (HL : length f = length (gprod g)) by (rewrite prod_length; exact Hf).
   rewrite !nth_xorv by exact HL. rewrite <- !xat_nth, <- !zat_nth by exact Hs.
-  unfold P at 2 4. rewrite xat_prod_nb, zat_prod_nb by exact Hs.
+  unfold npos at 2 4. rewrite xat_prod_nb, zat_prod_nb by exact Hs.
   rewrite gm_east, gm_west, gm_south, gm_north by assumption.
   unfold siteval, sval, fxb, fzb, v_node, h_node.
   destruct (Nat.even k) eqn:Ek.
@@ -174,13 +174,13 @@ Qed.
 End Prod.
 
 (* ---- the qubit nodes are the qubits, each once ---- *)
-Definition flq (kc : nat * nat) : nat := fl (P (fst kc) (snd kc)).
-Lemma QL_perm : Permutation (map flq (QL R C)) (seq 0 N).
+Definition flq (kc : nat * nat) : nat := fl (npos (fst kc) (snd kc)).
+Lemma QL_perm : Permutation (map flq (QL tn_rows tn_cols)) (seq 0 N).
 Proof.
   apply NoDup_Permutation.
   - apply NoDup_map_inj_on; [|apply NoDup_QL].
     intros [k c] [k' c'] H1 H2 E. apply QL_site in H1, H2. destruct H1 as (H1 & _), H2 as (H2 & _).
-    unfold flq in E. cbn [fst snd] in E. apply (fl_inj rows cols Hr Hc _ _ H1 H2) in E. apply P_inj in E. destruct E; congruence.
+    unfold flq in E. cbn [fst snd] in E. apply (fl_inj rows cols Hr Hc _ _ H1 H2) in E. apply npos_inj in E. destruct E; congruence.
   - apply seq_NoDup.
   - intros x. rewrite in_seq. split.
     + intros H. apply in_map_iff in H. destruct H as ([k c] & <- & Hin). apply QL_site in Hin. destruct Hin as ((Hs & Hi) & _).
@@ -189,20 +189,20 @@ Proof.
       destruct (unflatten rows cols (Z.of_nat x)) as [sr sc] eqn:Eu.
       rewrite site_unfold in Hs. rewrite inb_unfold in Hi. cbn [fst snd] in Hs, Hi.
       apply in_map_iff. exists (Z.to_nat sr, Z.to_nat sc). split.
-      * unfold flq, PlanarAll.fl, P. cbn [fst snd]. rewrite !Z2Nat.id by lia. rewrite Hfl. lia.
-      * apply (in_QL R C HR HC). unfold R, C. repeat split; try lia. apply Z_even. lia.
+      * unfold flq, PlanarAll.fl, npos. cbn [fst snd]. rewrite !Z2Nat.id by lia. rewrite Hfl. lia.
+      * apply (in_QL tn_rows tn_cols tn_rows_pos tn_cols_ge2). unfold tn_rows, tn_cols. repeat split; try lia. apply Z_even. lia.
 Qed.
 
 (* ---- the stabilizer nodes are the plaquettes, each once ---- *)
-Lemma PL_perm : Permutation (PL R C) PI.
+Lemma PL_perm : Permutation (PL tn_rows tn_cols) PI.
 Proof.
   apply NoDup_Permutation.
-  - apply (NoDup_PL R C HR HC).
+  - apply (NoDup_PL tn_rows tn_cols tn_rows_pos tn_cols_ge2).
   - apply NoDup_plaquette_indices.
-  - intros q. rewrite (in_PL R C HR HC). rewrite in_plaquette_indices. rewrite plaq_unfold, inb_unfold. split.
-    + intros (k & c & Hk & Hc' & Ho & ->). apply odd_Z in Ho. unfold P. cbn [fst snd]. unfold R, C in *. lia.
+  - intros q. rewrite (in_PL tn_rows tn_cols tn_rows_pos tn_cols_ge2). rewrite in_plaquette_indices. rewrite plaq_unfold, inb_unfold. split.
+    + intros (k & c & Hk & Hc' & Ho & ->). apply odd_Z in Ho. unfold npos. cbn [fst snd]. unfold tn_rows, tn_cols in *. lia.
     + intros [H1 H2]. destruct q as [qr qc]. cbn [fst snd] in *. exists (Z.to_nat qr), (Z.to_nat qc).
-      unfold P, R, C. repeat split; try lia.
+      unfold npos, tn_rows, tn_cols. repeat split; try lia.
       * apply Z_odd. lia.
       * f_equal; lia.
 Qed.
@@ -216,7 +216,7 @@ Proof. unfold PlanarDistAll.prod. rewrite lincomb_select, select_map_filter. ref
 
 (* every term: the product of the qubit-node entries at the bits g is the probability of f * prod(g) *)
 Theorem network_term g :
-  prodl (QL R C) (siteval K d R C fxb fzb g) = prob K d N (xorv f (gprod g)).
+  prodl (QL tn_rows tn_cols) (siteval K d tn_rows tn_cols fxb fzb g) = prob K d N (xorv f (gprod g)).
 Proof.
   rewrite prob_factor by (rewrite xorv_length; rewrite ?prod_length; exact Hf).
   rewrite <- (prodl_perm K _ _ _ QL_perm). rewrite prodl_map. apply prodl_ext_in. intros [k c] Hin.
@@ -225,9 +225,9 @@ Qed.
 
 (* C10, concrete planar network, all sizes: the specification value of the network built by create_tn is the
    coset probability of the sample over the code's stabilizer generators *)
-Theorem planar_network_value : value R planar_network = coset_prob K d N (stabilizers rows cols) f.
+Theorem planar_network_value : value tn_rows planar_network = coset_prob K d N (stabilizers rows cols) f.
 Proof.
-  unfold planar_network. rewrite (planar_tn_value K d R C HR HC fxb fzb (fun _ => false)).
+  unfold planar_network. rewrite (planar_tn_value K d tn_rows tn_cols tn_rows_pos tn_cols_ge2 fxb fzb (fun _ => false)).
   rewrite (sumA_ext_in K zz_eqb zz_eqb_eq _ _ (fun g => prob K d N (xorv f (gprod g)))) by (intros g _; apply network_term).
   rewrite (sumA_perm K zz_eqb zz_eqb_eq _ _ PL_perm).
   2:{ intros g g' Hg. do 2 f_equal. unfold PlanarDistAll.prod. do 2 f_equal. apply filter_ext. exact Hg. }
@@ -239,12 +239,12 @@ Proof.
 Qed.
 
 (* the network satisfies the hypothesis of the exact-contraction theorems *)
-Theorem planar_network_wf : netwf K R planar_network.
-Proof. apply planar_tn_wf; [apply HR|apply HC]. Qed.
+Theorem planar_network_wf : netwf K tn_rows planar_network.
+Proof. apply planar_tn_wf; [apply tn_rows_pos|apply tn_cols_ge2]. Qed.
 
 (* hence the flat sum over ALL bond assignments of the product of ALL entries is the coset probability ... *)
-Theorem planar_network_flat : flatval K planar_network (repeat 0%nat R) = coset_prob K d N (stabilizers rows cols) f.
-Proof. rewrite <- (value_flat_wf K R planar_network planar_network_wf). apply planar_network_value. Qed.
+Theorem planar_network_flat : flatval K planar_network (repeat 0%nat tn_rows) = coset_prob K d N (stabilizers rows cols) f.
+Proof. rewrite <- (value_flat_wf K tn_rows planar_network planar_network_wf). apply planar_network_value. Qed.
 
 (* ... and so is the number returned by the decoder's untruncated column sweep, in either direction *)
 Theorem planar_network_sweep :
@@ -255,11 +255,11 @@ Proof. rewrite <- planar_network_value. apply sweep_exact. apply planar_network_
 
 (* the decoder contracts all columns but the last from the left, and recombines with the last column (which is the
    only one that differs between the cosets f and f.X-bar): every split column gives the coset probability *)
-Theorem planar_network_split c : (0 < c < C)%nat ->
+Theorem planar_network_split c : (0 < c < tn_cols)%nat ->
   split_contract K planar_network None None None (Z.of_nat c) = Ok (coset_prob K d N (stabilizers rows cols) f).
 Proof.
   intros Hc'. rewrite <- planar_network_value.
-  assert (HL : length planar_network = C) by (unfold planar_network, planar_tn; rewrite map_length, seq_length; reflexivity).
+  assert (HL : length planar_network = tn_cols) by (unfold planar_network, planar_tn; rewrite map_length, seq_length; reflexivity).
   assert (Hlen : length (firstn c planar_network) = c) by (rewrite firstn_length; lia).
   pose proof planar_network_wf as Hwf. rewrite <- (firstn_skipn c planar_network) in Hwf |- *.
   rewrite <- Hlen at 3. apply split_exact; [| |exact Hwf].
@@ -269,10 +269,28 @@ Qed.
 
 (* mode 'r': the transposed network has the same value *)
 Theorem planar_network_transposed :
-  value C (transpose_net K R planar_network) = coset_prob K d N (stabilizers rows cols) f.
+  value tn_cols (transpose_net K tn_rows planar_network) = coset_prob K d N (stabilizers rows cols) f.
 Proof.
   rewrite <- planar_network_value. apply transpose_value; [apply planar_network_wf|].
   unfold planar_network, planar_tn. rewrite map_length, seq_length. reflexivity.
+Qed.
+
+Theorem planar_network_transposed_wf : netwf K tn_cols (transpose_net K tn_rows planar_network).
+Proof. apply planar_tn_transposed_wf; [apply tn_rows_pos|apply tn_cols_ge2]. Qed.
+Theorem planar_network_transposed_sweep :
+  contract K (transpose_net K tn_rows planar_network) None None None None None None
+  = Ok (Scalar (coset_prob K d N (stabilizers rows cols) f)).
+Proof. rewrite <- planar_network_transposed. apply sweep_exact. apply planar_network_transposed_wf. Qed.
+Theorem planar_network_transposed_split r : (0 < r < tn_rows)%nat ->
+  split_contract K (transpose_net K tn_rows planar_network) None None None (Z.of_nat r) = Ok (coset_prob K d N (stabilizers rows cols) f).
+Proof.
+  intros Hr'. rewrite <- planar_network_transposed.
+  assert (HL : length (transpose_net K tn_rows planar_network) = tn_rows) by (unfold transpose_net; rewrite map_length, seq_length; reflexivity).
+  assert (Hlen : length (firstn r (transpose_net K tn_rows planar_network)) = r) by (rewrite firstn_length; lia).
+  pose proof planar_network_transposed_wf as Hwf. rewrite <- (firstn_skipn r (transpose_net K tn_rows planar_network)) in Hwf |- *.
+  rewrite <- Hlen at 3. apply split_exact; [| |exact Hwf].
+  - intros E. rewrite E in Hlen. cbn in Hlen. lia.
+  - intros E. apply (f_equal (@length _)) in E. rewrite skipn_length in E. cbn in E. lia.
 Qed.
 
 (* the generators are independent, so the coset probability is the sum over the 2^(n-1) DISTINCT elements of the
@@ -303,9 +321,9 @@ Definition c10_planar_network_statement : Prop :=
     length f = (planar_n rows cols + planar_n rows cols)%nat ->
     Forall (fun g => length g = (planar_n rows cols + planar_n rows cols)%nat) (stabilizers rows cols)
     /\ indep (planar_n rows cols + planar_n rows cols) (stabilizers rows cols)
-    /\ netwf K (R rows) (planar_network K d rows cols f)
-    /\ value (R rows) (planar_network K d rows cols f) = coset_prob K d (planar_n rows cols) (stabilizers rows cols) f
-    /\ flatval K (planar_network K d rows cols f) (repeat 0%nat (R rows)) = coset_prob K d (planar_n rows cols) (stabilizers rows cols) f
+    /\ netwf K (tn_rows rows) (planar_network K d rows cols f)
+    /\ value (tn_rows rows) (planar_network K d rows cols f) = coset_prob K d (planar_n rows cols) (stabilizers rows cols) f
+    /\ flatval K (planar_network K d rows cols f) (repeat 0%nat (tn_rows rows)) = coset_prob K d (planar_n rows cols) (stabilizers rows cols) f
     /\ contract K (planar_network K d rows cols f) None None None None None None
        = Ok (Scalar (coset_prob K d (planar_n rows cols) (stabilizers rows cols) f)).
 Theorem c10_planar_network : c10_planar_network_statement.
@@ -318,7 +336,7 @@ Qed.
    theorem gives all four coset probabilities *)
 Theorem c10_planar_network_candidates (K : cring) (d : dist K) (rows cols : Z) (f l : bsf) : 2 <= rows -> 2 <= cols ->
   length f = (planar_n rows cols + planar_n rows cols)%nat -> length l = (planar_n rows cols + planar_n rows cols)%nat ->
-  value (R rows) (planar_network K d rows cols (xorv f l)) = coset_prob K d (planar_n rows cols) (stabilizers rows cols) (xorv f l).
+  value (tn_rows rows) (planar_network K d rows cols (xorv f l)) = coset_prob K d (planar_n rows cols) (stabilizers rows cols) (xorv f l).
 Proof. intros Hr Hc Hf Hl. apply planar_network_value; auto. rewrite xorv_length; congruence. Qed.
 
 (* NOT covered here (no Coq model of their create_tn yet): the rotated-planar MPS/RMPS decoders' networks.  The abstract
@@ -349,8 +367,8 @@ Notation N := (planar_n rows cols).
 Variable f : bsf.
 Hypothesis Hf : length f = (N + N)%nat.
 
-Lemma node_ext R C fx fz fx' fz' k c : (Nat.even (k + c) = true -> fx k c = fx' k c /\ fz k c = fz' k c) ->
-  node K d R C fx fz k c = node K d R C fx' fz' k c.
+Lemma node_ext tn_rows tn_cols fx fz fx' fz' k c : (Nat.even (k + c) = true -> fx k c = fx' k c /\ fz k c = fz' k c) ->
+  node K d tn_rows tn_cols fx fz k c = node K d tn_rows tn_cols fx' fz' k c.
 Proof.
   intros H. unfold node. destruct (Nat.even (k + c)); [|reflexivity]. destruct (H eq_refl) as [Hx Hz].
   unfold sval. rewrite Hx, Hz. reflexivity.
@@ -358,15 +376,15 @@ Qed.
 
 (* an operator l that is trivial on every qubit outside the last column does not change the other columns *)
 Theorem planar_network_shared_columns l : length l = (N + N)%nat ->
-  (forall k c, (k < R rows)%nat -> (S c < C cols)%nat -> Nat.even (k + c) = true ->
-     xat rows cols l (P k c) = false /\ zat rows cols l (P k c) = false) ->
-  firstn (C cols - 1) (planar_network K d rows cols (xorv f l)) = firstn (C cols - 1) (planar_network K d rows cols f).
+  (forall k c, (k < tn_rows rows)%nat -> (S c < tn_cols cols)%nat -> Nat.even (k + c) = true ->
+     xat rows cols l (npos k c) = false /\ zat rows cols l (npos k c) = false) ->
+  firstn (tn_cols cols - 1) (planar_network K d rows cols (xorv f l)) = firstn (tn_cols cols - 1) (planar_network K d rows cols f).
 Proof.
   intros Hl Htriv. unfold planar_network, planar_tn. rewrite !firstn_map. apply map_ext_in. intros c Hc'.
   rewrite firstn_seq' in Hc'. apply in_seq in Hc'. unfold pcol. apply map_ext_in. intros k Hk. apply in_seq in Hk.
   f_equal. apply node_ext. intros He.
-  assert (Hs : isite rows cols (P k c)).
-  { assert (Hin : In (k, c) (QL (R rows) (C cols))) by (apply (in_QL _ _ (HR rows Hr) (HC cols Hc)); repeat split; auto; lia).
+  assert (Hs : isite rows cols (npos k c)).
+  { assert (Hin : In (k, c) (QL (tn_rows rows) (tn_cols cols))) by (apply (in_QL _ _ (tn_rows_pos rows Hr) (tn_cols_ge2 cols Hc)); repeat split; auto; lia).
     apply (QL_site rows cols Hr Hc) in Hin. apply Hin. }
   destruct (Htriv k c ltac:(lia) ltac:(lia) He) as [Hx Hz].
   unfold fxb, fzb. rewrite !(xat_nth rows cols Hr Hc) by exact Hs. rewrite !(zat_nth rows cols) by exact Hs.
@@ -376,58 +394,111 @@ Proof.
 Qed.
 
 (* the logical X of the planar code is such an operator *)
-Lemma lxop_trivial_off_last_column k c : (k < R rows)%nat -> (S c < C cols)%nat -> Nat.even (k + c) = true ->
-  xat rows cols (lxop rows cols) (P k c) = false /\ zat rows cols (lxop rows cols) (P k c) = false.
+Lemma lxop_trivial_off_last_column k c : (k < tn_rows rows)%nat -> (S c < tn_cols cols)%nat -> Nat.even (k + c) = true ->
+  xat rows cols (lxop rows cols) (npos k c) = false /\ zat rows cols (lxop rows cols) (npos k c) = false.
 Proof.
   intros Hk Hc' He.
-  assert (Hsite : planar_is_site (P k c) = true).
-  { rewrite site_unfold. unfold P. cbn [fst snd]. apply even_Z in He. lia. }
+  assert (Hsite : planar_is_site (npos k c) = true).
+  { rewrite site_unfold. unfold npos. cbn [fst snd]. apply even_Z in He. lia. }
   assert (HLx : length (lxop rows cols) = (N + N)%nat) by apply sop_length.
   split.
   - rewrite (xat_reader rows cols Hr Hc) by assumption. unfold reader_x, lxop.
     rewrite (bsp_sop rows cols Hr Hc) by (auto using single_site, lx_sites_sites). cbv zeta. cbn [zbit xbit andb].
     rewrite pairs_filter. cbn [fold_right]. rewrite cnt_filter, (cnt_lx rows cols Hr).
-    replace (snd (P k c) =? 2 * cols - 2) with false by (unfold P, C in *; cbn [snd]; lia).
+    replace (snd (npos k c) =? 2 * cols - 2) with false by (unfold npos, tn_cols in *; cbn [snd]; lia).
     cbn [andb Z.b2z]. rewrite !Z.mul_0_r. reflexivity.
   - rewrite (zat_reader rows cols Hr Hc) by assumption. unfold reader_z, lxop.
     rewrite (bsp_sop rows cols Hr Hc) by (auto using single_site, lx_sites_sites). cbv zeta. cbn [zbit xbit andb]. reflexivity.
 Qed.
 Theorem planar_network_logical_x_shared :
-  firstn (C cols - 1) (planar_network K d rows cols (xorv f (lxop rows cols))) = firstn (C cols - 1) (planar_network K d rows cols f).
+  firstn (tn_cols cols - 1) (planar_network K d rows cols (xorv f (lxop rows cols))) = firstn (tn_cols cols - 1) (planar_network K d rows cols f).
 Proof. apply planar_network_shared_columns; [apply sop_length|apply lxop_trivial_off_last_column]. Qed.
 
 (* the decoder's computation of the X-bar coset: left part of the network of f, last column of the network of f.X-bar *)
 Theorem planar_network_mixed_split :
-  split_contract K (firstn (C cols - 1) (planar_network K d rows cols f)
-                    ++ skipn (C cols - 1) (planar_network K d rows cols (xorv f (lxop rows cols))))
-                 None None None (Z.of_nat (C cols - 1))
+  split_contract K (firstn (tn_cols cols - 1) (planar_network K d rows cols f)
+                    ++ skipn (tn_cols cols - 1) (planar_network K d rows cols (xorv f (lxop rows cols))))
+                 None None None (Z.of_nat (tn_cols cols - 1))
   = Ok (coset_prob K d N (stabilizers rows cols) (xorv f (lxop rows cols))).
 Proof.
   rewrite <- planar_network_logical_x_shared. rewrite firstn_skipn.
   apply planar_network_split; auto.
   - rewrite xorv_length; [exact Hf|]. rewrite Hf. symmetry. apply sop_length.
-  - pose proof (HC cols Hc). lia.
+  - pose proof (tn_cols_ge2 cols Hc). lia.
+Qed.
+
+(* mode 'r': cosets that differ by the logical Z share all ROWS but the last, i.e. all columns but the last of the
+   transposed networks *)
+Theorem planar_network_shared_rows l : length l = (N + N)%nat ->
+  (forall k c, (S k < tn_rows rows)%nat -> (c < tn_cols cols)%nat -> Nat.even (k + c) = true ->
+     xat rows cols l (npos k c) = false /\ zat rows cols l (npos k c) = false) ->
+  firstn (tn_rows rows - 1) (transpose_net K (tn_rows rows) (planar_network K d rows cols (xorv f l)))
+  = firstn (tn_rows rows - 1) (transpose_net K (tn_rows rows) (planar_network K d rows cols f)).
+Proof.
+  intros Hl Htriv. unfold transpose_net. rewrite !firstn_map. apply map_ext_in. intros r Hr'.
+  rewrite firstn_seq' in Hr'. apply in_seq in Hr'. unfold planar_network, planar_tn. rewrite !map_map.
+  apply map_ext_in. intros c Hc'. apply in_seq in Hc'. f_equal.
+  rewrite !nth_pcol by lia. f_equal. apply node_ext. intros He.
+  assert (Hs : isite rows cols (npos r c)).
+  { assert (Hin : In (r, c) (QL (tn_rows rows) (tn_cols cols))) by (apply (in_QL _ _ (tn_rows_pos rows Hr) (tn_cols_ge2 cols Hc)); repeat split; auto; lia).
+    apply (QL_site rows cols Hr Hc) in Hin. apply Hin. }
+  destruct (Htriv r c ltac:(lia) ltac:(lia) He) as [Hx Hz].
+  unfold fxb, fzb. rewrite !(xat_nth rows cols Hr Hc) by exact Hs. rewrite !(zat_nth rows cols) by exact Hs.
+  rewrite !nth_xorv by congruence.
+  rewrite <- !(xat_nth rows cols Hr Hc) by exact Hs. rewrite <- !(zat_nth rows cols) by exact Hs.
+  rewrite Hx, Hz, !xorb_false_r. split; reflexivity.
+Qed.
+Lemma lzop_trivial_off_last_row k c : (S k < tn_rows rows)%nat -> (c < tn_cols cols)%nat -> Nat.even (k + c) = true ->
+  xat rows cols (lzop rows cols) (npos k c) = false /\ zat rows cols (lzop rows cols) (npos k c) = false.
+Proof.
+  intros Hk Hc' He.
+  assert (Hsite : planar_is_site (npos k c) = true).
+  { rewrite site_unfold. unfold npos. cbn [fst snd]. apply even_Z in He. lia. }
+  assert (HLz : length (lzop rows cols) = (N + N)%nat) by apply sop_length.
+  split.
+  - rewrite (xat_reader rows cols Hr Hc) by assumption. unfold reader_x, lzop.
+    rewrite (bsp_sop rows cols Hr Hc) by (auto using single_site, lz_sites_sites). cbv zeta. cbn [zbit xbit andb]. reflexivity.
+  - rewrite (zat_reader rows cols Hr Hc) by assumption. unfold reader_z, lzop.
+    rewrite (bsp_sop rows cols Hr Hc) by (auto using single_site, lz_sites_sites). cbv zeta. cbn [zbit xbit andb].
+    rewrite pairs_filter. cbn [fold_right]. rewrite cnt_filter, (cnt_lz rows cols Hc).
+    replace (fst (npos k c) =? 2 * rows - 2) with false by (unfold npos, tn_rows in *; cbn [fst]; lia).
+    cbn [andb Z.b2z]. rewrite !Z.mul_0_r. reflexivity.
+Qed.
+Theorem planar_network_logical_z_shared :
+  firstn (tn_rows rows - 1) (transpose_net K (tn_rows rows) (planar_network K d rows cols (xorv f (lzop rows cols))))
+  = firstn (tn_rows rows - 1) (transpose_net K (tn_rows rows) (planar_network K d rows cols f)).
+Proof. apply planar_network_shared_rows; [apply sop_length|apply lzop_trivial_off_last_row]. Qed.
+Theorem planar_network_mixed_split_rows :
+  split_contract K (firstn (tn_rows rows - 1) (transpose_net K (tn_rows rows) (planar_network K d rows cols f))
+                    ++ skipn (tn_rows rows - 1) (transpose_net K (tn_rows rows) (planar_network K d rows cols (xorv f (lzop rows cols)))))
+                 None None None (Z.of_nat (tn_rows rows - 1))
+  = Ok (coset_prob K d N (stabilizers rows cols) (xorv f (lzop rows cols))).
+Proof.
+  rewrite <- planar_network_logical_z_shared. rewrite firstn_skipn.
+  apply planar_network_transposed_split; auto.
+  - rewrite xorv_length; [exact Hf|]. rewrite Hf. symmetry. apply sop_length.
+  - unfold tn_rows. lia.
 Qed.
 End Shared.
 
 (* ---- non-vacuity: closed instances on small lattices (integer numerators) ---- *)
 Example planar_network_example_2x2 :
   let f := [true;false;false;true;false; false;true;false;false;true] in
-  length f = (planar_n 2 2 + planar_n 2 2)%nat /\ R 2 = 3%nat /\ C 2 = 3%nat /\ length (stabilizers 2 2) = 4%nat
-  /\ value (R 2) (planar_network Zring (7, 1, 1, 1)%Z 2 2 f) = 640%Z
+  length f = (planar_n 2 2 + planar_n 2 2)%nat /\ tn_rows 2 = 3%nat /\ tn_cols 2 = 3%nat /\ length (stabilizers 2 2) = 4%nat
+  /\ value (tn_rows 2) (planar_network Zring (7, 1, 1, 1)%Z 2 2 f) = 640%Z
   /\ coset_prob Zring (7, 1, 1, 1)%Z (planar_n 2 2) (stabilizers 2 2) f = 640%Z.
 Proof. vm_compute. repeat split; reflexivity. Qed.
 Example planar_network_example_2x3 :
   let f := [true;false;false;true;false;true;false;true; false;true;false;false;true;false;false;true] in
-  length f = (planar_n 2 3 + planar_n 2 3)%nat /\ (R 2, C 3) = (3%nat, 5%nat)
-  /\ value (R 2) (planar_network Zring (5, 1, 2, 3)%Z 2 3 f) = 478070%Z
+  length f = (planar_n 2 3 + planar_n 2 3)%nat /\ (tn_rows 2, tn_cols 3) = (3%nat, 5%nat)
+  /\ value (tn_rows 2) (planar_network Zring (5, 1, 2, 3)%Z 2 3 f) = 478070%Z
   /\ coset_prob Zring (5, 1, 2, 3)%Z (planar_n 2 3) (stabilizers 2 3) f = 478070%Z
   /\ contract Zring (planar_network Zring (5, 1, 2, 3)%Z 2 3 f) None None None None None None = Ok (@Scalar Zring 478070%Z)
   /\ split_contract Zring (planar_network Zring (5, 1, 2, 3)%Z 2 3 f) None None None 4%Z = Ok 478070%Z.
 Proof. vm_compute. repeat split; reflexivity. Qed.
 (* the theorem instantiated (hypotheses satisfiable) *)
 Example planar_network_instance :
-  value (R 3) (planar_network Zring (7, 1, 1, 1)%Z 3 3 (zeros 26))
+  value (tn_rows 3) (planar_network Zring (7, 1, 1, 1)%Z 3 3 (zeros 26))
   = coset_prob Zring (7, 1, 1, 1)%Z (planar_n 3 3) (stabilizers 3 3) (zeros 26).
 Proof. apply planar_network_value; [lia|lia|reflexivity]. Qed.
 
@@ -441,3 +512,5 @@ Print Assumptions planar_network_transposed.
 Print Assumptions c10_planar_network.
 Print Assumptions c10_network_partial.
 Print Assumptions planar_network_mixed_split.
+Print Assumptions planar_network_mixed_split_rows.
+Print Assumptions planar_network_transposed_sweep.
